@@ -31,7 +31,8 @@ fn kind_name(k: u8) -> &'static str {
     }
 }
 
-const POSITIONS: [(i32, i32); 4] = [(0, 0), (32, 25), (-300, 200), (3, 7)];
+// two positions share their x (a purely vertical drag), one is far off-canvas
+const POSITIONS: [(i32, i32); 5] = [(0, 0), (32, 25), (-300, 200), (32, 60), (3, 7)];
 const SCROLLS: [f32; 4] = [0.0, 100.0, -100.0, 37.5];
 const SIZES: [(u32, u32, u32); 3] = [(64, 64, 64), (100, 50, 30), (33, 77, 20)];
 
@@ -321,7 +322,7 @@ impl<C: Cv> Model for CanvasModel<C> {
         if s.fail.is_some() {
             return;
         }
-        let np = if self.big { POSITIONS.len() } else { 3 } as u8;
+        let np = if self.big { POSITIONS.len() } else { 4 } as u8;
         let ns = if self.big { SCROLLS.len() } else { 3 } as u8;
         let modes: &[u8] = if C::DIM3 { &[1, 2] } else { &[1] };
         for sc in 0..ns {
@@ -540,10 +541,10 @@ impl Check for C18 {
     }
     fn meta(&self, tier: Tier) -> Meta {
         Meta {
-            rule: "explicit-state breadth-first search (stateright) whose transition function calls the real Canvas2 / Canvas3 methods; actions: interact(cursor in {none, position x {no drag, pan, rotate}}, scroll), begin_drag, drag, end_drag, zoom(scroll, position or none), resize, interact(new image size, position x {pan, rotate}) i.e. a resize and a drag event in one call, from 2 (2D) / 4 (3D) initial canvases (default; zoomed and panned; rotated; rotated the other way and zoomed), over screen positions {corner, centre, far off-canvas (-300,200), (3,7)}, scrolls {0, +100, -100, 37.5}, image sizes {64x64, 100x50, 33x77}; state key = bit pattern of the view components + image size + shadow record of the active drag (view and position at its start) + depth; per-transition obligations: zoom about p keeps the model point under p (1e-4 relative), while a pan is active the point grabbed at its start stays under the cursor, rotation leaves centre and scale bit-identical with pitch in [0,pi] and |yaw| < 2pi, changed == false when the view is bit-identical, world_to_model == translate*rotate*scale of the components; every obligation is an `always` property; counts: states = unique states, transitions = generated states".into(),
+            rule: "explicit-state breadth-first search (stateright) whose transition function calls the real Canvas2 / Canvas3 methods; actions: interact(cursor in {none, position x {no drag, pan, rotate}}, scroll), begin_drag, drag, end_drag, zoom(scroll, position or none), resize, interact(new image size, position x {pan, rotate}) i.e. a resize and a drag event in one call, from 2 (2D) / 4 (3D) initial canvases (default; zoomed and panned; rotated; rotated the other way and zoomed), over screen positions {corner, centre, far off-canvas (-300,200), (32,60) sharing its x with the centre, (3,7)}, scrolls {0, +100, -100, 37.5}, image sizes {64x64, 100x50, 33x77}; state key = bit pattern of the view components + image size + shadow record of the active drag (view and position at its start) + depth; per-transition obligations: zoom about p keeps the model point under p (1e-4 relative), while a pan is active the point grabbed at its start stays under the cursor, rotation leaves centre and scale bit-identical with pitch in [0,pi] and |yaw| < 2pi, changed == false when the view is bit-identical, world_to_model == translate*rotate*scale of the components; every obligation is an `always` property; counts: states = unique states, transitions = generated states".into(),
             bounds: match tier {
-                Tier::Quick => "depth 3 (3 positions, 3 scrolls)".into(),
-                Tier::Thorough => "depth 4 (4 positions, 4 scrolls) and depth 5 (3 positions, 3 scrolls)".into(),
+                Tier::Quick => "depth 3 (4 positions, 3 scrolls)".into(),
+                Tier::Thorough => "depth 4 (5 positions, 4 scrolls) and depth 5 (4 positions, 3 scrolls)".into(),
             },
             assumptions: vec!["the drag handle is opaque; the state key uses the view and cursor at the start of the drag, of which the handle is a function".into()],
             crash_policy: CrashPolicy::Violation,
